@@ -14,6 +14,8 @@ mod poolgen;
 mod votor;
 mod c01;
 mod c09;
+mod sim;
+mod c02;
 mod c10;
 mod c20;
 mod c19;
@@ -173,6 +175,8 @@ fn real_main() {
                 "C20" => c20::gen_c20(seed, tier),
                 "C01" => c01::gen_c01(seed, tier),
                 "C10" => c10::gen_c10(seed, tier),
+                "C02" => c02::gen_c02(seed, tier),
+                "C01SIM" => c02::gen_c01(seed, tier),
                 "C15" => c15::generate(seed, tier),
                 "C17" => c17::gen_c17(seed, tier),
                 "C16" => c16::gen_c16(seed, tier),
